@@ -58,6 +58,16 @@ SPEC = {
         ("RefArrayVectorOf", "src/xercesc/internal/IGXMLScanner.cpp"), ("Hash2KeysSetOf", "src/xercesc/validators/schema/TraverseSchema.cpp"),
     ]] + [c("ElemStack", [X]), c("WFElemStack", [X]), c("XMLBuffer", [X]), c("XMLBufferMgr", [X]), c("CMStateSet", [X], tu="src/xercesc/validators/common/DFAContentModel.cpp"),
           c("XMLStringPool", [X]), c("XMLString", [X])],
+    "C03": [
+        c("SAXParser", [], calls=["DocumentHandler", "DTDHandler", "ErrorHandler", "EntityResolver", "XMLEntityResolver", "XMLDocumentHandler", "Attributes", "VecAttrListImpl"], floor=10),
+        c("SAX2XMLReaderImpl", [], calls=["ContentHandler", "DTDHandler", "LexicalHandler", "DeclHandler", "ErrorHandler", "EntityResolver", "XMLEntityResolver", "XMLDocumentHandler"], floor=20),
+        c("AbstractDOMParser", [], calls=["DOMDocument", "DOMDocumentImpl", "DOMParentNode", "DOMElement", "DOMElementImpl", "DOMElementNSImpl", "DOMNode", "DOMAttr", "DOMAttrImpl",
+                                          "DOMAttrMapImpl", "DOMDocumentTypeImpl", "DOMDocumentType", "DOMEntityImpl", "DOMNotationImpl", "DOMEntityReferenceImpl", "DOMTextImpl",
+                                          "DOMNamedNodeMap", "DOMTypeInfoImpl", "DOMCharacterData", "DOMText", "DOMNodeIDMap", "DOMImplementation"], floor=25),
+        c("DOMLSParserImpl", [], calls=["DOMLSParserFilter", "DOMErrorHandler", "DOMLSResourceResolver", "DOMNode", "DOMDocument", "DOMDocumentImpl", "DOMParentNode"], floor=6),
+        c("XSDDOMParser", [], calls=["DOMDocument", "DOMDocumentImpl", "DOMParentNode", "DOMElement", "DOMElementImpl", "DOMNode", "XMLErrorReporter", "DOMAttrMapImpl"], floor=4),
+    ] + [c(s_, [], calls=["XMLDocumentHandler", "DocTypeHandler", "XMLEntityHandler", "PSVIHandler", "XMLErrorReporter"], floor=8, key=s_ + "/events") for s_ in SCANNERS]
+      + [c("DTDScanner", [], calls=["DocTypeHandler", "XMLDocumentHandler", "XMLEntityHandler"], floor=10, key="DTDScanner/events")],
     "C05": [c("XMLUTF8Transcoder", [X], floor=5), c("XMLUCS4Transcoder", [X]), c("XMLASCIITranscoder", [X]),
             c("XML88591Transcoder", [X]), c("XML256TableTranscoder", [X]), c("ICUTranscoder", [X]),
             c("XMLRecognizer", [X]), c("XMLReader", [X, E], floor=3), c("TranscodeFromStr", [X]), c("TranscodeToStr", [X]),
